@@ -64,8 +64,10 @@ func ciscoPlan(kind, prop string) RunFunc {
 			}
 		case "C07":
 			if len(o.Rejects) > 0 {
-				c.Count("skipped_rejected_script", 1)
-				return nil
+				// Judge the frame condition on a device that tolerates the
+				// rejected commands (the rejection itself belongs to C08).
+				c.Count("rejected_script_rerun_on_tolerant_device", 1)
+				o = ExecPlan(cs, p, false, false, true)
 			}
 			if o.Frame != "" {
 				what := "edited"
